@@ -5,6 +5,7 @@ CONSTANTS
   Budget = 3
   MaxOver = 2
   YieldFree = FALSE
+VIEW aview
 INVARIANT AbsInv
 PROPERTY RelayForward
 PROPERTY StatusForward
